@@ -18,7 +18,8 @@ from pyvc.model import Obj
 conforms = M.conforms                                    # C02: value conforms to schema
 sub_ok = z3.Function("sub_ok", Obj, Obj, M.B)            # partial conformance (SubstitutorValidator)
 wf = z3.Function("wf", Obj, M.B)                         # schema is well-formed (C10 invariant)
-satisfiable = z3.Function("satisfiable", Obj, M.B)
+satisfiable = z3.Function("satisfiable", Obj, M.B)       # exists w. conforms(S, w)
+reach = z3.Function("reach", Obj, M.B)                   # S is a DSL-reachable state (class invariant, C10)
 custom_ok = z3.Function("custom_ok", Obj, Obj, M.B)
 
 CT: Any = None      # the class table of the run (set by pyvc.cli.load_all / the test drivers)
@@ -323,6 +324,36 @@ def reach_def(ct, cls: str, Sx: Any, regex_maxlen_fixed: bool = True) -> List[An
                                                   z3.Not(D("substr")))))
     if cls == "ListSchema":
         f.append(z3.Implies(D("len"), z3.And(z3.Not(D("min_len")), z3.Not(D("max_len")))))
+        E = P("elements")
+        m = M.llen(E)
+        j = z3.Int("rj")
+        ell0 = z3.And(m > 0, M.lat(E, 0) == M.EllV)
+        ellL = z3.And(m > 1, M.lat(E, m - 1) == M.EllV)
+        c = m - z3.If(ell0, 1, 0) - z3.If(ellL, 1, 0)       # number of concrete elements
+        has_ell = z3.Or(ell0, ellL)
+        ln, mn, mx = M.int_of(P("len")), M.int_of(P("min_len")), M.int_of(P("max_len"))
+        f.append(z3.Implies(D("elements"), z3.And(
+            z3.Implies(D("len"), z3.If(has_ell, ln >= c, ln == c)),
+            z3.Implies(D("min_len"), mn <= c),
+            z3.Implies(D("max_len"), mx >= c),
+            z3.ForAll([j], z3.Implies(z3.And(0 <= j, j < m, M.lat(E, j) != M.EllV), reach(M.lat(E, j))),
+                      patterns=[M.lat(E, j)]))))
+        f.append(z3.Implies(D("type"), reach(P("type"))))
+    if cls == "DictSchema":
+        K = P("keys")
+        x = z3.Const("rx", Obj)
+        f.append(z3.Implies(D("keys"), z3.ForAll([x], z3.Implies(z3.And(M.has(K, x), x != M.EllV),
+                                                                  reach(M.lat(M.dget(K, x), 0))),
+                                                 patterns=[M.has(K, x)])))
+    if cls == "AnySchema":
+        t = P("types")
+        j = z3.Int("rj")
+        f.append(z3.Implies(D("types"), z3.And(
+            M.llen(t) > 0,
+            z3.ForAll([j], z3.Implies(z3.And(0 <= j, j < M.llen(t)), reach(M.lat(t, j))), patterns=[M.lat(t, j)]))))
+    if cls == "TypeAliasSchema":
+        r = reg_of(Sx)
+        f.append(z3.Implies(M.has(r, S_("type")), reach(M.dget(r, S_("type")))))
     if "value" in PROP_NAMES[cls]:
         f.append(z3.Implies(D("value"), conforms_def(ct, cls, Sx, P("value"))))
     return f
